@@ -58,6 +58,7 @@ func variadicElems(v ssa.Value) ([]ssa.Value, bool) {
 // ---- history tree model (roles resolved structurally) ----------------------
 
 type histModel struct {
+	p          *Program
 	pkg        *ssa.Package
 	opIface    types.Type              // the traversal node interface (`operation`)
 	visitorIfc *types.Interface        // opVisitor
@@ -72,7 +73,7 @@ func buildHistModel(c *Ctx) *histModel {
 	if sp == nil {
 		fatalf("package %s not loaded", pkgHistory)
 	}
-	m := &histModel{pkg: sp, kinds: map[*types.Named]string{}}
+	m := &histModel{p: p, pkg: sp, kinds: map[*types.Named]string{}}
 	hiV := p.MustMethod(pkgHistory, "MembershipProof", "Verify")
 	// the node interface = result type of the traversal constructor used by Verify
 	eachInstr(hiV, func(in ssa.Instruction) {
@@ -236,8 +237,27 @@ func (m *histModel) kindOfCtor(fn *ssa.Function) (string, *types.Named) {
 	return m.kinds[n], n
 }
 
-// traversal: the recursive closure of a pruneTo* function.
+// travInfo: the recursive traversal a pruneTo* function starts. It is either a closure of the
+// constructor (position is its only parameter) or a package-level recursive function that the
+// constructor calls once (position is the one parameter that changes in the recursion; the
+// others are passed through unchanged and stand for the constructor's own values).
+type travInfo struct {
+	fn     *ssa.Function
+	posIdx int
+	pass   map[int]*Term // traversal parameter -> its value in the constructor's vocabulary
+}
+
 func (m *histModel) traversal(fn *ssa.Function) *ssa.Function {
+	if ti := m.traversalInfo(fn); ti != nil {
+		return ti.fn
+	}
+	return nil
+}
+
+func (m *histModel) traversalInfo(fn *ssa.Function) *travInfo {
+	if fn == nil {
+		return nil
+	}
 	var found *ssa.Function
 	for _, a := range Anons(fn) {
 		if a.Signature.Results().Len() == 1 && types.Identical(a.Signature.Results().At(0).Type(), m.opIface) {
@@ -247,12 +267,68 @@ func (m *histModel) traversal(fn *ssa.Function) *ssa.Function {
 			found = a
 		}
 	}
-	return found
+	if found != nil {
+		return &travInfo{fn: found, posIdx: 0}
+	}
+	// package-level form
+	var site *ssa.CallCommon
+	n := 0
+	eachInstr(fn, func(in ssa.Instruction) {
+		cc := callCommon(in)
+		if cc == nil {
+			return
+		}
+		f := cc.StaticCallee()
+		if f == nil || f == fn || f.Pkg != m.pkg || f.Signature.Recv() != nil || f.Signature.Results().Len() != 1 || len(f.Blocks) == 0 {
+			return
+		}
+		if !types.Identical(f.Signature.Results().At(0).Type(), m.opIface) || len(selfCalls(f)) == 0 {
+			return
+		}
+		n++
+		site = cc
+	})
+	if n != 1 {
+		return nil
+	}
+	f := site.StaticCallee()
+	ti := &travInfo{fn: f, posIdx: -1, pass: map[int]*Term{}}
+	for i := range f.Params {
+		same := true
+		for _, rc := range selfCalls(f) {
+			if i >= len(rc.Args) || rc.Args[i] != ssa.Value(f.Params[i]) {
+				same = false
+			}
+		}
+		if same {
+			ti.pass[i] = m.p.TermOf(site.Args[i])
+		} else if ti.posIdx < 0 {
+			ti.posIdx = i
+		} else {
+			return nil // more than one parameter changes in the recursion: not the traversal shape
+		}
+	}
+	if ti.posIdx < 0 {
+		return nil
+	}
+	return ti
+}
+
+func selfCalls(f *ssa.Function) []*ssa.CallCommon {
+	var out []*ssa.CallCommon
+	eachInstr(f, func(in ssa.Instruction) {
+		if cc := callCommon(in); cc != nil && cc.StaticCallee() == f {
+			out = append(out, cc)
+		}
+	})
+	return out
 }
 
 type sibSide struct {
 	parent    *ssa.Function
 	closure   *ssa.Function
+	posIdx    int
+	pass      map[int]*Term  // closure parameter passed through the recursion -> term over the parent
 	sym       map[int]string // parent parameter index -> symbol
 	getIsRead bool           // verifier side: a cache read is an audit-path read = COLLECT(GET(x)) of the prover
 	eraseAll  bool           // erase every wrapper incl. collect (hash-shape comparison)
@@ -265,8 +341,11 @@ func (m *histModel) hook(s sibSide) normHook {
 		switch t.Op {
 		case "param":
 			if t.Fn == s.closure {
-				if t.Idx == 0 {
+				if t.Idx == s.posIdx {
 					return "pos", true
+				}
+				if pt, ok := s.pass[t.Idx]; ok {
+					return rec(pt), true
 				}
 				return fmt.Sprintf("arg%d", t.Idx), true
 			}
@@ -283,13 +362,23 @@ func (m *histModel) hook(s sibSide) normHook {
 			}
 			if t.Fn == s.closure && t.Fn != nil {
 				var xs []string
-				for _, a := range args {
+				for i, a := range args {
+					if _, passed := s.pass[i]; passed {
+						continue
+					}
 					xs = append(xs, rec(a))
 				}
 				return "REC(" + strings.Join(xs, ",") + ")", true
 			}
 			kind, named := m.kindOfCtor(t.Fn)
 			if kind == "" || len(args) == 0 {
+				// a same-package helper that only composes node constructors (e.g. a `frozen(x)` wrapper)
+				if t.Fn != nil && t.Fn.Pkg == m.pkg && t.Op == "call" && len(t.Fn.Blocks) > 0 && t.Fn.Signature.Results().Len() == 1 &&
+					types.Identical(t.Fn.Signature.Results().At(0).Type(), m.opIface) {
+					if ex := m.p.X1(t); ex != t && ex.Op != "phi" {
+						return rec(ex), true
+					}
+				}
 				return "", false
 			}
 			switch kind {
